@@ -126,6 +126,10 @@ class Repeat(addons.AddonMainTask, block.SBlock):
                     data = await asyncio.wait_for(self._queue.get(), self._interval)
                     repeat = 0
                 except asyncio.TimeoutError:
+                    if not self._queue.empty():
+                        # a newer event was received (and forwarded) between the
+                        # time-out and this wake-up; the old event is obsolete
+                        continue
                     repeat += 1
 
             if repeat > 0:  # skip the original event
